@@ -106,6 +106,9 @@ func rulesC04(w *World, o *Out) {
 		d := "normal form: "
 		if ok2 {
 			d += "sum " + op.String() + " " + ratio.RatString() + "·total"
+			if !rel.FloorExact() {
+				d += " but computed with a truncating division on the compared side, which accepts sums below the exact ratio"
+			}
 		} else {
 			d += "not a comparison of the running sum with the total (" + rel.L.String() + " ? " + rel.R.String() + ")"
 		}
